@@ -5,6 +5,18 @@ props = [json.loads(l) for l in open('/verif/properties.jsonl')]
 hook_commit = "4a75e26"
 # id -> (level, technique, level text, level note, design ref)
 CHECKS = {
+ "C02": ("exploration", "deterministic simulation: seeded fault-free clusters of real instances under a discrete-event scheduler (latency jitter/reordering only) with always-on no-false-suspicion oracles and per-family discovery bounds",
+         "Seeded search over cluster sizes, join plans (sequential, concurrent with/without periodic announce), configurations and latencies; zero false suspicion/notification/error checked after every event; discovery bound derived for sequential joins, empirical with >=4x margin for concurrent joins with periodic announce; stalls with periodic announce off are classified against the known-finding signature K-C02-1.",
+         "premise enforced by the simulator: latency < probe_rtt/4, probe_rtt < probe_period, exact timers, no loss; n <= 24", "5/C02"),
+ "C03": ("exploration", "deterministic simulation: seeded formed clusters with crash / leave+exit / leave+stay injected right after the e-th processed event, bounded-detection oracle per (survivor, failed member)",
+         "Every survivor that listed a failed member must notify MemberDown within (2n+1) probe periods + suspect_to_down_after; no survivor is declared down; leave gossip is reported in the handling call; a departed but still driven instance stops answering and never comes back by itself. Thorough sweeps every failure point in a 400-event window for small clusters.",
+         "premise as C02 apart from the injected failures; n <= 16", "5/C03"),
+ "C04": ("fault_enumeration", "deterministic simulation: per sampled cluster configuration one run per datagram index with exactly that datagram lost (fault enumeration over loss positions)",
+         "For each configuration the base run is executed, then one run per datagram position in a window of 2n probe periods (thorough: every position; quick: 24 stride-sampled), clusters formed by state restore or by joins with periodic announce (so Ping, Ack, Announce, Feed and Gossip positions are all hit; indirect relays only exist as a consequence of the loss). Oracle: no MemberDown/Defunct/Rejoin/Idle anywhere and everyone Alive again 2n+2 periods later.",
+         "configuration envelope: latency <= probe_rtt/4, probe_period > probe_rtt + 4*latency, suspect_to_down_after >= probe_period", "5/C04"),
+ "C18": ("exploration", "deterministic simulation: 2-3 real instances in seeded mutual-knowledge states, timers held, one initial datagram of each kind, seeded delivery order until the network drains",
+         "Seeded search over knowledge states x self states x renew policies x initial datagram kinds x delivery orders; oracle: the network drains within 400 deliveries (worst observed 16) and no delivery causes more than 2*fan-out+2 datagrams.",
+         "max_transmissions <= 5; initial knowledge injected through apply_many", "5/C18"),
  "C06": ("exploration", "deterministic simulation: seeded adversarial single-instance histories under catch_unwind in two build profiles; constructors by enumeration",
          "Seeded search over adversarial histories (random/mutated/valid datagrams, genuine/crafted/stale/duplicated timers, every API call incl. any legal set_config) in builds with and without debug assertions/overflow checks; a clean batch is evidence, not proof. Config::new_lan/new_wan: enumeration (thorough: all 2^32-1 cluster sizes).",
          "the simulator's Codec/Runtime/BroadcastHandler/Identity do not panic; max_packet_size <= 70000 and fan-out <= 64 (alloc aborts excluded)", "5/C06"),
